@@ -109,6 +109,9 @@ fn res_from_bytes(b: &[u8]) -> Option<RefResult> {
 
 /// Fork; in the child evaluate `req` on a fresh object and exit. Returns the child's answer,
 /// or a synthetic `Aborted(...)` result if the child died.
+/// Wall-clock limit for one reference evaluation in its child process.
+const CHILD_TIMEOUT_S: u64 = 6;
+
 fn eval_in_child(req: &Request, hash_stream: u64) -> RefResult {
     let mut fds = [0i32; 2];
     // SAFETY: plain pipe(2)
@@ -150,7 +153,29 @@ fn eval_in_child(req: &Request, hash_stream: u64) -> RefResult {
     unsafe { libc::close(fds[1]) };
     let mut out = Vec::new();
     let mut buf = [0u8; 65536];
+    let t0 = std::time::Instant::now();
+    let mut timed_out = false;
     loop {
+        // a reference evaluation that does not come back (a library that hands work to
+        // threads of its own, which the step budget of the calling thread does not stop)
+        // is given CHILD_TIMEOUT_S seconds, then killed and reported as not completing
+        let left = CHILD_TIMEOUT_S as i64 * 1000 - t0.elapsed().as_millis() as i64;
+        if left <= 0 {
+            timed_out = true;
+            unsafe { libc::kill(pid, libc::SIGKILL) };
+            break;
+        }
+        let mut pfd = libc::pollfd { fd: fds[0], events: libc::POLLIN, revents: 0 };
+        let pr = unsafe { libc::poll(&mut pfd, 1, left.min(1000) as i32) };
+        if pr == 0 {
+            continue;
+        }
+        if pr < 0 {
+            if std::io::Error::last_os_error().kind() == std::io::ErrorKind::Interrupted {
+                continue;
+            }
+            break;
+        }
         let n = unsafe { libc::read(fds[0], buf.as_mut_ptr() as *mut libc::c_void, buf.len()) };
         if n < 0 {
             let e = std::io::Error::last_os_error();
@@ -175,6 +200,16 @@ fn eval_in_child(req: &Request, hash_stream: u64) -> RefResult {
             break;
         }
     }
+    if timed_out {
+        return RefResult {
+            open: "Diverged".to_string(),
+            steps: 0,
+            polls: Vec::new(),
+            poll_steps: Vec::new(),
+            unstable: false,
+            budget_sensitive: true,
+        };
+    }
     match res_from_bytes(&out) {
         Some(r) if libc::WIFEXITED(status) && libc::WEXITSTATUS(status) == 0 => r,
         _ => RefResult {
@@ -198,6 +233,10 @@ fn eval_in_child(req: &Request, hash_stream: u64) -> RefResult {
 
 fn eval_fresh(req: &Request, keyb: &[u8]) -> RefResult {
     let a = eval_in_child(req, 0x5151_0001);
+    if a.budget_sensitive {
+        // timed out: no point in waiting for a twin
+        return a;
+    }
     // every 4th request (by hash of the request) is evaluated a second time under another
     // hash-key stream
     if crate::rng::Fnv::of(keyb) % 4 != 0 {
